@@ -101,3 +101,19 @@ contract("monkeytype.db.sqlite:SQLiteStore.make_store", props=["C09"], theories=
                   "post:path": "conn_path(result.conn) is connection_string",
                   "post:table": "result.table == 'monkeytype_call_traces'"},
          raises={"sqlite3.Error": None})
+
+contract("monkeytype.db.sqlite:SQLiteStore.list_modules", props=["C09"], theories=TH, pure=False, effects="sql",
+         params={"self": "SQLiteStore"}, result="Seq[str]",
+         ensures={
+             # one read transaction running SELECT module FROM <table> GROUP BY module: no WHERE / LIMIT, so every stored row's module takes part, each once
+             "post:transaction": "len(effects()) == len(old(effects())) + 3 and nth(effects(), len(old(effects()))) is tup('begin', self.conn) and last_effect_() is tup('commit', self.conn)",
+             "post:columns": "sql_columns(last_stmt()) == ['module']",
+             "post:all-rows-distinct-modules": "sql_no_where(last_stmt()) and sql_distinct_rows(last_stmt())",
+             "post:table": "sql_table_is(last_stmt(), unboxs(self.table))",
+             # the listing is the (non-empty) module column of the rows the query returns, nothing else
+             "post:only-fetched": "forall(result, lambda m: exists(fetched(L_ghost_eff_at_fetch), lambda row: nth(row, 0) is m and truthy_(m)))",
+             "post:all-fetched": "forall(fetched(L_ghost_eff_at_fetch), lambda row: implies(truthy_(nth(row, 0)), has(result, nth(row, 0))))",
+         },
+         assumes={"sqlite-row-arity": "forall_v(lambda e: forall(fetched(e), lambda r: len(r) == 1))"},
+         note="assumed: SQLite returns one 1-tuple per row of a 1-column SELECT (post:columns proves the column list)",
+         raises={"sqlite3.Error": None})
